@@ -27,6 +27,10 @@ pub enum Pre {
     Random(Vec<u8>),
     /// the correct bytes with one more line
     Longer,
+    /// the correct text with the other line terminators (LF <-> CRLF)
+    EolFlipped,
+    /// the correct bytes with the final line ending removed (or added)
+    FinalNewlineToggled,
 }
 
 #[derive(Debug, Clone, Serialize, Deserialize)]
@@ -43,7 +47,7 @@ pub struct Case {
 }
 
 fn gen_pre(c: &mut Choices) -> Pre {
-    match c.weighted(&[2, 2, 3, 1, 4, 3, 1]) {
+    match c.weighted(&[2, 2, 3, 1, 4, 3, 1, 2, 2]) {
         0 => Pre::Absent,
         1 => Pre::Correct,
         2 => Pre::Stale,
@@ -53,7 +57,9 @@ fn gen_pre(c: &mut Choices) -> Pre {
             let n = 1 + c.below(6);
             Pre::Random((0..n).map(|_| *c.pick(&[0xffu8, 0xc3, b'a', b'\n', 0x80, 0xe8, b' ', 0x00])).collect())
         }
-        _ => Pre::Longer,
+        6 => Pre::Longer,
+        7 => Pre::EolFlipped,
+        _ => Pre::FinalNewlineToggled,
     }
 }
 
@@ -98,6 +104,21 @@ fn apply_pre(pre: &Pre, correct: Option<&Vec<u8>>) -> Option<Vec<u8>> {
         Pre::Longer => {
             let mut v = base;
             v.extend_from_slice(b"one more line\n");
+            Some(v)
+        }
+        Pre::EolFlipped => {
+            let t = String::from_utf8_lossy(&base).to_string();
+            Some(if t.contains("\r\n") { t.replace("\r\n", "\n") } else { t.replace('\n', "\r\n") }.into_bytes())
+        }
+        Pre::FinalNewlineToggled => {
+            let mut v = base;
+            if v.ends_with(b"\r\n") {
+                v.truncate(v.len() - 2);
+            } else if v.ends_with(b"\n") {
+                v.pop();
+            } else {
+                v.push(b'\n');
+            }
             Some(v)
         }
     }
@@ -268,7 +289,7 @@ impl Prop for C08 {
         }
     }
     fn worker(&self, ctx: &mut WorkerCtx) {
-        let total = if ctx.quick { 12_000 } else { 250_000 };
+        let total = if ctx.quick { 24_000 } else { 600_000 };
         let n = ctx.share(total);
         ctx.drive(1, n, 600, &gen_case, &check, &reduce);
         if !ctx.quick && ctx.stats.violations.is_empty() {
@@ -329,7 +350,7 @@ fn sigkill_supplement(ctx: &mut WorkerCtx) {
         su.wipe_generated();
         let frac = (c.raw() as f64) / 65536.0;
         let delay = full.mul_f64(frac * 1.1);
-        let mut cmd = Command::new(crate::child::CLI);
+        let mut cmd = Command::new(crate::child::cli());
         cmd.args(crate::child::cli_args(&opts)).current_dir(&su.sc.root).env_remove("TXTPP_FILE").stdin(Stdio::null()).stdout(Stdio::null()).stderr(Stdio::null()).process_group(0);
         let Ok(mut child) = cmd.spawn() else { continue };
         std::thread::sleep(delay);
